@@ -6,7 +6,7 @@
 From Verif Require Import Bytes BytesFacts Crc32 CrcFacts Codec CodecFacts ListDS Index Merge.
 From VerifGo Require Import GoSem.
 From VerifGen Require Import GoCodec.
-From Coq Require Import Lia ZifyBool.
+From Coq Require Import Lia ZifyBool Setoid Morphisms.
 Open Scope Z_scope.
 
 (** ================================================================== *)
@@ -211,6 +211,315 @@ Proof.
   rewrite <- app_assoc. reflexivity.
 Qed.
 
+(** ** stores into disjoint ranges commute
+
+    The order of two adjacent [PutUintNN] into disjoint ranges of the same
+    buffer is irrelevant; [sort_puts] reorders every chain of such stores by
+    increasing (literal) offset, so that a proof written for stores in
+    increasing order is unaffected by a reordering of the statements. *)
+Definition spl {A} (l : list A) (lo : nat) (x : list A) : list A :=
+  firstn lo l ++ x ++ skipn (lo + length x) l.
+
+Lemma spl_app {A} (a b r x : list A) n : length a = n -> length b = length x ->
+  spl (a ++ b ++ r) n x = a ++ x ++ r.
+Proof.
+  intros Ha Hb. unfold spl. rewrite slice_app_here by exact Ha.
+  rewrite <- Hb. rewrite skipn_app_more by exact Ha.
+  rewrite skipn_app_here by reflexivity. reflexivity.
+Qed.
+
+Lemma split_at {A} (l : list A) n : (n <= length l)%nat -> exists a b, l = a ++ b /\ length a = n.
+Proof.
+  intros H. exists (firstn n l), (skipn n l).
+  split; [symmetry; apply firstn_skipn | apply firstn_length_le; exact H].
+Qed.
+
+Lemma length_spl {A} (l x : list A) lo : (lo + length x <= length l)%nat -> length (spl l lo x) = length l.
+Proof.
+  intros H. unfold spl. rewrite !app_length, firstn_length, skipn_length. lia.
+Qed.
+
+Lemma spl_comm {A} (l x1 x2 : list A) lo1 lo2 :
+  (lo2 + length x2 <= lo1)%nat -> (lo1 + length x1 <= length l)%nat ->
+  spl (spl l lo1 x1) lo2 x2 = spl (spl l lo2 x2) lo1 x1.
+Proof.
+  intros H1 H2.
+  destruct (split_at l lo2) as (a & r1 & -> & Ha); [lia|].
+  rewrite app_length in H2.
+  destruct (split_at r1 (length x2)) as (b & r2 & -> & Hb); [lia|].
+  rewrite app_length in H2.
+  destruct (split_at r2 (lo1 - lo2 - length x2)) as (c & r3 & -> & Hc); [lia|].
+  rewrite app_length in H2.
+  destruct (split_at r3 (length x1)) as (d & e & -> & Hd); [lia|].
+  transitivity (a ++ x2 ++ c ++ x1 ++ e).
+  - replace (a ++ b ++ c ++ d ++ e) with ((a ++ b ++ c) ++ d ++ e) by (rewrite <- !app_assoc; reflexivity).
+    rewrite (spl_app (a ++ b ++ c) d e x1 lo1) by (rewrite ?app_length; lia).
+    rewrite <- !app_assoc.
+    apply spl_app; [exact Ha | exact Hb].
+  - rewrite (spl_app a b (c ++ d ++ e) x2 lo2) by assumption.
+    replace (a ++ x2 ++ c ++ d ++ e) with ((a ++ x2 ++ c) ++ d ++ e) by (rewrite <- !app_assoc; reflexivity).
+    rewrite (spl_app (a ++ x2 ++ c) d e x1 lo1) by (rewrite ?app_length; lia).
+    rewrite <- !app_assoc. reflexivity.
+Qed.
+
+Lemma gput_ok (l : bytes) lo hi w v : 0 <= w -> 0 <= lo -> lo <= hi -> hi <= zlen l -> w <= hi - lo ->
+  gput l lo hi w v = GOk (spl l (Z.to_nat lo) (le_enc (Z.to_nat w) v)).
+Proof.
+  intros Hw H1 H2 H3 H4. unfold gput, spl.
+  replace ((0 <=? lo) && (lo <=? hi) && (hi <=? zlen l) && (w <=? hi - lo)) with true by lia.
+  rewrite length_le_enc. replace (Z.to_nat (lo + w)) with (Z.to_nat lo + Z.to_nat w)%nat by lia.
+  reflexivity.
+Qed.
+
+Lemma gput_panic (l : bytes) lo hi w v : ~ (0 <= lo /\ lo <= hi /\ hi <= zlen l /\ w <= hi - lo) ->
+  gput l lo hi w v = GPanic.
+Proof.
+  intros H. unfold gput.
+  replace ((0 <=? lo) && (lo <=? hi) && (hi <=? zlen l) && (w <=? hi - lo)) with false by lia.
+  reflexivity.
+Qed.
+
+Lemma zlen_spl_enc (l : bytes) lo w v : 0 <= w -> 0 <= lo -> lo + w <= zlen l ->
+  zlen (spl l (Z.to_nat lo) (le_enc (Z.to_nat w) v)) = zlen l.
+Proof.
+  intros Hw H1 H2. unfold zlen in *. rewrite length_spl; [reflexivity|].
+  rewrite length_le_enc. lia.
+Qed.
+
+Lemma gput_comm {B} (l : bytes) lo1 hi1 w1 v1 lo2 hi2 w2 v2 (k : bytes -> gres B) :
+  0 <= w1 -> 0 <= w2 -> hi2 <= lo1 ->
+  gbind (gput l lo1 hi1 w1 v1) (fun t => gbind (gput t lo2 hi2 w2 v2) k) =
+  gbind (gput l lo2 hi2 w2 v2) (fun t => gbind (gput t lo1 hi1 w1 v1) k).
+Proof.
+  intros Hw1 Hw2 Hd. pose proof (zlen_nonneg l) as Hl.
+  destruct ((0 <=? lo1) && (lo1 <=? hi1) && (hi1 <=? zlen l) && (w1 <=? hi1 - lo1)) eqn:E1;
+  destruct ((0 <=? lo2) && (lo2 <=? hi2) && (hi2 <=? zlen l) && (w2 <=? hi2 - lo2)) eqn:E2.
+  - rewrite (gput_ok l lo1) by lia. rewrite (gput_ok l lo2) by lia. cbn [gbind].
+    rewrite gput_ok by (rewrite ?zlen_spl_enc by lia; lia).
+    rewrite gput_ok by (rewrite ?zlen_spl_enc by lia; lia).
+    cbn [gbind]. f_equal. apply spl_comm; rewrite ?length_le_enc; unfold zlen in *; lia.
+  - rewrite (gput_ok l lo1) by lia. rewrite (gput_panic l lo2) by lia. cbn [gbind].
+    rewrite gput_panic by (rewrite ?zlen_spl_enc by lia; lia). reflexivity.
+  - rewrite (gput_panic l lo1) by lia. rewrite (gput_ok l lo2) by lia. cbn [gbind].
+    rewrite gput_panic by (rewrite ?zlen_spl_enc by lia; lia). reflexivity.
+  - rewrite (gput_panic l lo1) by lia. rewrite (gput_panic l lo2) by lia. reflexivity.
+Qed.
+
+(** rewriting in the continuation of a [gbind] (under its binder) *)
+#[local] Instance gbind_pointwise {A B} :
+  Proper (eq ==> pointwise_relation A eq ==> eq) (@gbind A B).
+Proof. intros m m' -> f g H. destruct m'; cbn [gbind]; [apply H | reflexivity | reflexivity]. Qed.
+
+(** bubble sort of the adjacent stores with literal offsets; the stores may
+    sit anywhere in the chain (the buffer they write to is then a bound
+    variable, hence the [setoid_rewrite]) *)
+Ltac sort_puts :=
+  repeat match goal with
+  | |- context [@gbind _ ?B (gput _ ?lo1 ?hi1 ?w1 ?v1) (fun t => gbind (gput t ?lo2 ?hi2 ?w2 ?v2) _)] =>
+      let b := eval compute in (Z.ltb lo2 lo1) in
+      lazymatch b with
+      | true =>
+          let H1 := fresh in let H2 := fresh in let H3 := fresh in
+          assert (H1 : 0 <= w1) by lia; assert (H2 : 0 <= w2) by lia; assert (H3 : hi2 <= lo1) by lia;
+          setoid_rewrite (fun l k => @gput_comm B l lo1 hi1 w1 v1 lo2 hi2 w2 v2 k H1 H2 H3);
+          clear H1 H2 H3
+      end
+  end.
+
+(** ** stores in general: [PutUintNN] and [copy] into a sub-slice
+
+    [gstore l lo hi x] writes the bytes [x] at offset [lo] of [l] through the
+    sub-slice [l[lo:hi]].  A [gput] and a [gcopy] that fills its destination
+    are such stores ([to_stores]); two adjacent stores into ranges that are
+    provably disjoint and in decreasing order commute ([sort_stores], wherever
+    they are in the chain), and a call of a function that is itself a store
+    (Entry.setEntryHeaderBuf) takes part in the sorting.  An encoder is then
+    executed on the sorted chain, each store extending the part already
+    written ([gstore_ext0]): the order of the independent stores in the Go
+    source does not matter. *)
+Definition gstore (l : bytes) (lo hi : Z) (x : bytes) : gres bytes :=
+  if (0 <=? lo) && (lo <=? hi) && (hi <=? zlen l) && (zlen x <=? hi - lo)
+  then GOk (spl l (Z.to_nat lo) x) else GPanic.
+
+Lemma gput_store (l : bytes) lo hi w v : 0 <= w ->
+  gput l lo hi w v = gstore l lo hi (le_enc (Z.to_nat w) v).
+Proof.
+  intros Hw. unfold gput, gstore. rewrite zlen_le_enc, Z2Nat.id by lia.
+  destruct ((0 <=? lo) && (lo <=? hi) && (hi <=? zlen l) && (w <=? hi - lo)) eqn:E; [|reflexivity].
+  f_equal. unfold spl. rewrite length_le_enc.
+  replace (Z.to_nat (lo + w)) with (Z.to_nat lo + Z.to_nat w)%nat by lia. reflexivity.
+Qed.
+
+Lemma gcopy_store (l : bytes) lo hi (src : bytes) : hi - lo = zlen src ->
+  gcopy l lo hi src = gstore l lo hi src.
+Proof.
+  intros H. pose proof (zlen_nonneg src) as Hs. unfold gcopy, gstore. cbv zeta.
+  replace (zlen src <=? hi - lo) with true by lia. rewrite andb_true_r.
+  destruct ((0 <=? lo) && (lo <=? hi) && (hi <=? zlen l)) eqn:E; [|reflexivity].
+  f_equal. rewrite H, Z.min_id. unfold spl. rewrite to_nat_zlen, firstn_all.
+  replace (Z.to_nat (lo + zlen src)) with (Z.to_nat lo + length src)%nat by (unfold zlen; lia).
+  reflexivity.
+Qed.
+
+Lemma gstore_ok (l : bytes) lo hi x : 0 <= lo -> lo <= hi -> hi <= zlen l -> zlen x <= hi - lo ->
+  gstore l lo hi x = GOk (spl l (Z.to_nat lo) x).
+Proof.
+  intros H1 H2 H3 H4. unfold gstore.
+  replace ((0 <=? lo) && (lo <=? hi) && (hi <=? zlen l) && (zlen x <=? hi - lo)) with true by lia.
+  reflexivity.
+Qed.
+
+Lemma gstore_panic (l : bytes) lo hi x : ~ (0 <= lo /\ lo <= hi /\ hi <= zlen l /\ zlen x <= hi - lo) ->
+  gstore l lo hi x = GPanic.
+Proof.
+  intros H. unfold gstore.
+  replace ((0 <=? lo) && (lo <=? hi) && (hi <=? zlen l) && (zlen x <=? hi - lo)) with false by lia.
+  reflexivity.
+Qed.
+
+Lemma zlen_spl (l x : bytes) lo : 0 <= lo -> lo + zlen x <= zlen l -> zlen (spl l (Z.to_nat lo) x) = zlen l.
+Proof.
+  intros H1 H2. unfold zlen in *. rewrite length_spl; [reflexivity | lia].
+Qed.
+
+Lemma gstore_comm {B} (l : bytes) lo1 hi1 x1 lo2 hi2 x2 (k : bytes -> gres B) :
+  hi2 <= lo1 ->
+  gbind (gstore l lo1 hi1 x1) (fun t => gbind (gstore t lo2 hi2 x2) k) =
+  gbind (gstore l lo2 hi2 x2) (fun t => gbind (gstore t lo1 hi1 x1) k).
+Proof.
+  intros Hd. pose proof (zlen_nonneg l) as Hl.
+  pose proof (zlen_nonneg x1) as Hx1. pose proof (zlen_nonneg x2) as Hx2.
+  destruct ((0 <=? lo1) && (lo1 <=? hi1) && (hi1 <=? zlen l) && (zlen x1 <=? hi1 - lo1)) eqn:E1;
+  destruct ((0 <=? lo2) && (lo2 <=? hi2) && (hi2 <=? zlen l) && (zlen x2 <=? hi2 - lo2)) eqn:E2.
+  - rewrite (gstore_ok l lo1) by lia. rewrite (gstore_ok l lo2) by lia. cbn [gbind].
+    rewrite gstore_ok by (rewrite ?zlen_spl by lia; lia).
+    rewrite gstore_ok by (rewrite ?zlen_spl by lia; lia).
+    cbn [gbind]. f_equal. apply spl_comm; unfold zlen in *; lia.
+  - rewrite (gstore_ok l lo1) by lia. rewrite (gstore_panic l lo2) by lia. cbn [gbind].
+    rewrite gstore_panic by (rewrite ?zlen_spl by lia; lia). reflexivity.
+  - rewrite (gstore_panic l lo1) by lia. rewrite (gstore_ok l lo2) by lia. cbn [gbind].
+    rewrite gstore_panic by (rewrite ?zlen_spl by lia; lia). reflexivity.
+  - rewrite (gstore_panic l lo1) by lia. rewrite (gstore_panic l lo2) by lia. reflexivity.
+Qed.
+
+(** two stores into adjacent ranges are one store *)
+Lemma spl_spl_adj {A} (l x1 x2 : list A) lo : (lo + length x1 + length x2 <= length l)%nat ->
+  spl (spl l lo x1) (lo + length x1) x2 = spl l lo (x1 ++ x2).
+Proof.
+  intros H.
+  destruct (split_at l lo) as (a & r1 & -> & Ha); [lia|].
+  rewrite app_length in H.
+  destruct (split_at r1 (length x1)) as (b & r2 & -> & Hb); [lia|].
+  rewrite app_length in H.
+  destruct (split_at r2 (length x2)) as (c & e & -> & Hc); [lia|].
+  rewrite (spl_app a b (c ++ e) x1 lo) by assumption.
+  replace (a ++ x1 ++ c ++ e) with ((a ++ x1) ++ c ++ e) by (rewrite <- !app_assoc; reflexivity).
+  rewrite (spl_app (a ++ x1) c e x2) by (rewrite ?app_length; lia).
+  replace (a ++ b ++ c ++ e) with (a ++ (b ++ c) ++ e) by (rewrite <- !app_assoc; reflexivity).
+  rewrite (spl_app a (b ++ c) e (x1 ++ x2) lo) by (rewrite ?app_length; lia).
+  rewrite <- !app_assoc. reflexivity.
+Qed.
+
+Lemma gstore_merge {B} (l : bytes) lo1 hi1 x1 lo2 hi2 x2 (k : bytes -> gres B) :
+  hi1 = lo2 -> zlen x1 = hi1 - lo1 ->
+  gbind (gstore l lo1 hi1 x1) (fun t => gbind (gstore t lo2 hi2 x2) k) =
+  gbind (gstore l lo1 hi2 (x1 ++ x2)) k.
+Proof.
+  intros <- Hx. pose proof (zlen_nonneg l) as Hl.
+  pose proof (zlen_nonneg x1) as Hx1. pose proof (zlen_nonneg x2) as Hx2.
+  assert (Happ : zlen (x1 ++ x2) = zlen x1 + zlen x2) by apply zlen_app.
+  destruct ((0 <=? lo1) && (hi1 <=? hi2) && (hi2 <=? zlen l) && (zlen x2 <=? hi2 - hi1)) eqn:E.
+  - rewrite (gstore_ok l lo1 hi1) by lia. cbn [gbind].
+    rewrite gstore_ok by (rewrite ?zlen_spl by lia; lia).
+    rewrite (gstore_ok l lo1 hi2) by lia. cbn [gbind]. f_equal.
+    replace (Z.to_nat hi1) with (Z.to_nat lo1 + length x1)%nat by (unfold zlen in *; lia).
+    apply spl_spl_adj. unfold zlen in *. lia.
+  - rewrite (gstore_panic l lo1 hi2) by lia.
+    destruct ((0 <=? lo1) && (hi1 <=? zlen l)) eqn:E1.
+    + rewrite (gstore_ok l lo1 hi1) by lia. cbn [gbind].
+      rewrite gstore_panic by (rewrite ?zlen_spl by lia; lia). reflexivity.
+    + rewrite (gstore_panic l lo1 hi1) by lia. reflexivity.
+Qed.
+
+(** a store that extends the part of the buffer already written *)
+Lemma gstore_ext (done junk x : bytes) lo hi :
+  zlen done = lo -> zlen x <= hi - lo -> hi <= lo + zlen junk ->
+  gstore (done ++ junk) lo hi x = GOk ((done ++ x) ++ skipn (length x) junk).
+Proof.
+  intros H1 H2 H3. pose proof (zlen_nonneg done). pose proof (zlen_nonneg x).
+  rewrite gstore_ok by (rewrite ?zlen_app; lia). unfold spl.
+  rewrite slice_app_here by (unfold zlen in H1; lia).
+  rewrite skipn_app_more by (unfold zlen in H1; lia).
+  rewrite <- app_assoc. reflexivity.
+Qed.
+
+Lemma gstore_ext0 (done x : bytes) (m : nat) lo hi :
+  zlen done = lo -> zlen x <= hi - lo -> hi <= lo + Z.of_nat m ->
+  gstore (done ++ repeat x00 m) lo hi x = GOk ((done ++ x) ++ repeat x00 (m - length x)).
+Proof.
+  intros H1 H2 H3. rewrite gstore_ext by (rewrite ?zlen_repeat; lia).
+  rewrite skipn_repeat. reflexivity.
+Qed.
+
+(** every [gput] / filling [gcopy] with closed arguments, wherever it is in the chain *)
+Ltac to_stores side :=
+  repeat match goal with
+  | |- context [gput _ ?lo ?hi ?w ?v] =>
+      let H := fresh in
+      assert (H : 0 <= w) by lia;
+      setoid_rewrite (fun l => gput_store l lo hi w v H); clear H
+  | |- context [gcopy _ ?lo ?hi ?src] =>
+      let H := fresh in
+      assert (H : hi - lo = zlen src) by side;
+      setoid_rewrite (fun l => gcopy_store l lo hi src H); clear H
+  end.
+
+(** bubble sort of the adjacent stores whose order is provable by [side] *)
+Ltac sort_stores side :=
+  repeat match goal with
+  | |- context [@gbind _ ?B (gstore _ ?lo1 ?hi1 ?x1) (fun t => gbind (gstore t ?lo2 ?hi2 ?x2) _)] =>
+      let H := fresh in
+      assert (H : hi2 <= lo1) by side;
+      setoid_rewrite (fun l k => @gstore_comm B l lo1 hi1 x1 lo2 hi2 x2 k H); clear H
+  end.
+
+(** fuse the adjacent stores into contiguous ranges *)
+Ltac merge_stores side :=
+  repeat match goal with
+  | |- context [@gbind _ ?B (gstore _ ?lo1 ?hi1 ?x1) (fun t => gbind (gstore t ?lo2 ?hi2 ?x2) _)] =>
+      let H1 := fresh in let H2 := fresh in
+      assert (H1 : hi1 = lo2) by side; assert (H2 : zlen x1 = hi1 - lo1) by side;
+      setoid_rewrite (fun l k => @gstore_merge B l lo1 hi1 x1 lo2 hi2 x2 k H1 H2); clear H1 H2
+  end.
+
+(** ** case analysis that does not depend on the shape of a test
+
+    (the same tactics as in GoListFacts.v, repeated here so that this file
+    depends on the translation of the codecs only)  [go_case] case-splits on
+    one ATOMIC test of the first [if] (or boolean connective) of the goal,
+    descending through [&&], [||], [negb]; [go_cases] repeats this and lets
+    [lia] discard the impossible branches. *)
+Ltac bool_atom c :=
+  lazymatch c with
+  | andb ?a ?b => first [bool_atom a | bool_atom b]
+  | orb ?a ?b => first [bool_atom a | bool_atom b]
+  | negb ?a => bool_atom a
+  | true => fail
+  | false => fail
+  | context [if ?d then _ else _] => bool_atom d
+  | _ => destruct c eqn:?
+  end.
+
+Ltac go_case :=
+  match goal with
+  | |- context [if ?c then _ else _] => bool_atom c; cbn [andb orb negb gbind fst snd]
+  | |- context [andb ?a ?b] => bool_atom (andb a b); cbn [andb orb negb gbind fst snd]
+  | |- context [orb ?a ?b] => bool_atom (orb a b); cbn [andb orb negb gbind fst snd]
+  | |- context [negb ?a] => bool_atom a; cbn [andb orb negb gbind fst snd]
+  end.
+
+Ltac go_cases := repeat (go_case; try (exfalso; lia)).
+
 (** ** loads *)
 Lemma gle_zslice (buf : bytes) lo hi w : 0 <= lo -> 0 <= w -> hi = lo + w -> hi <= zlen buf ->
   gle w (zslice buf lo hi) = GOk (Z.of_N (fld buf (Z.to_nat lo) (Z.to_nat w))).
@@ -268,7 +577,8 @@ Lemma go_setEntryHeaderBuf_ext e (done : bytes) (m : nat) :
 Proof.
   unfold sized, meta_of. cbv zeta.
   intros (Hk & Hv & Hb & Hts & Httl & Hfl & Hst & Hds & Htx & Hsz) Hd Hm.
-  unfold go_Entry_setEntryHeaderBuf. rewrite Hk, Hv, Hb.
+  unfold go_Entry_setEntryHeaderBuf. rewrite Hk, Hv, Hb. cbv zeta.
+  sort_puts.
   repeat (rewrite gput_ext by zsolve; cbn [gbind]).
   znat. rewrite !to_N_zlen.
   unfold entry_hdr_tail, to_entry, meta_of.
@@ -276,6 +586,27 @@ Proof.
   rewrite <- !app_assoc.
   match goal with |- context [repeat x00 ?k] => replace k with (m - 38)%nat by lia end.
   reflexivity.
+Qed.
+
+(** setEntryHeaderBuf is ONE store of bytes 4..42, on any buffer (too short a
+    buffer included: both sides panic), whatever the order of its nine puts *)
+Lemma go_setEntryHeaderBuf_store {B} e (l : bytes) (k : (go_Entry * bytes) * bytes -> gres B) :
+  sized e ->
+  gbind (go_Entry_setEntryHeaderBuf e l) k =
+  gbind (gstore l 4 42 (entry_hdr_tail (to_entry e))) (fun t => k ((e, t), t)).
+Proof.
+  unfold sized, meta_of. cbv zeta.
+  intros (Hk & Hv & Hb & Hts & Httl & Hfl & Hst & Hds & Htx & Hsz).
+  unfold go_Entry_setEntryHeaderBuf. rewrite Hk, Hv, Hb. cbv zeta.
+  to_stores lia. sort_stores lia. merge_stores ltac:(rewrite ?zlen_app, ?zlen_le_enc; lia).
+  znat. rewrite !to_N_zlen.
+  match goal with |- gbind (gbind (gstore l 4 42 ?x) _) _ = _ =>
+    replace x with (entry_hdr_tail (to_entry e))
+      by (unfold entry_hdr_tail, to_entry, meta_of;
+          cbn [e_key e_value e_bucket e_ts e_ttl e_flag e_status e_ds e_txid];
+          rewrite <- ?app_assoc; reflexivity)
+  end.
+  destruct (gstore l 4 42 (entry_hdr_tail (to_entry e))); reflexivity.
 Qed.
 
 (** Entry.Encode produces exactly the bytes of the model's [encode_entry] *)
@@ -288,10 +619,17 @@ Proof.
   pose proof (zlen_nonneg (MetaData_bucket (Entry_Meta e))).
   unfold go_Entry_Encode, go_Entry_Size. cbn [gbind]. rewrite Hk, Hv, Hb. simp_wrap.
   rewrite (gmake_ext x00 _ 4) by lia. cbn [gbind].
-  rewrite go_setEntryHeaderBuf_ext by (try exact Hs; zsolve). cbn [gbind].
+  (* the header (one store, see [go_setEntryHeaderBuf_store]) and the three
+     copies are four stores into disjoint ranges: sorted, then executed *)
+  match goal with |- context [@gbind _ ?B (go_Entry_setEntryHeaderBuf e _) _] =>
+    setoid_rewrite (fun l k => @go_setEntryHeaderBuf_store B e l k Hs)
+  end.
+  cbn [gbind].
   assert (Lh : length (entry_hdr_tail (to_entry e)) = 38%nat).
   { unfold entry_hdr_tail. rewrite !app_length, !length_le_enc. reflexivity. }
-  repeat (rewrite gcopy_ext by (unfold zlen in *; rewrite ?app_length, ?Lh, ?repeat_length; lia); cbn [gbind]).
+  assert (Lhz : zlen (entry_hdr_tail (to_entry e)) = 38) by (unfold zlen; rewrite Lh; reflexivity).
+  to_stores lia. sort_stores lia.
+  repeat (rewrite gstore_ext0 by (unfold zlen in *; rewrite ?app_length, ?Lh, ?repeat_length; lia); cbn [gbind]).
   rewrite <- !app_assoc.
   rewrite gslice_tail_app by apply zlen_repeat. cbn [gbind].
   rewrite gput_head by apply zlen_repeat. znat. rewrite N2Z.id.
@@ -378,12 +716,13 @@ Proof.
   pose proof (zlen_nonneg (BPTreeRootIdx_start r)). pose proof (zlen_nonneg (BPTreeRootIdx_end r)).
   unfold go_BPTreeRootIdx_Encode, go_BPTreeRootIdx_Size. cbn [gbind]. rewrite Hs, He. simp_wrap.
   rewrite (gmake_ext x00 _ 4) by lia. cbn [gbind].
-  repeat (rewrite gput_ext by zsolve; cbn [gbind]).
-  repeat (rewrite gcopy_ext by zsolve; cbn [gbind]).
+  (* four header puts and two copies: six stores into disjoint ranges, sorted, then executed *)
+  to_stores lia. sort_stores lia.
+  repeat (rewrite gstore_ext0 by zsolve; cbn [gbind]).
   rewrite <- !app_assoc.
   rewrite gslice_tail_app by apply zlen_repeat. cbn [gbind].
   rewrite gput_head by apply zlen_repeat. znat. rewrite N2Z.id, !to_N_zlen.
-  rewrite repeat_nil by (unfold zlen in *; lia). rewrite app_nil_r.
+  rewrite repeat_nil by (unfold zlen in *; rewrite ?length_le_enc; lia). rewrite app_nil_r.
   unfold encode_rootidx, rootidx_body, to_rootidx. cbn [ri_fid ri_rootoff ri_start ri_end].
   rewrite <- ?app_assoc. reflexivity.
 Qed.
@@ -401,6 +740,7 @@ Proof.
   pose proof (zlen_nonneg (BucketMeta_start b)). pose proof (zlen_nonneg (BucketMeta_end b)).
   unfold go_BucketMeta_Encode, go_BucketMeta_Size. cbn [gbind]. rewrite Hs, He. simp_wrap.
   rewrite (gmake_ext x00 _ 4) by lia. cbn [gbind].
+  sort_puts.
   repeat (rewrite gput_ext by zsolve; cbn [gbind]).
   (* each variable field: sub-slice alias of the zero part, copy into it, store
      back; the re-slicings of the aliases after a store only have to succeed *)
@@ -424,17 +764,15 @@ Theorem go_IsExpired_eq now ttl ts :
   go_IsExpired now ttl ts = GOk (is_expired (Z.to_N now) (Z.to_N ttl) (Z.to_N ts)).
 Proof.
   intros Hn Ht Hs. unfold go_IsExpired, is_expired, wrapU. cbv zeta.
-  assert (E : ((0 <? ttl) && (now mod 2 ^ 64 <? (ttl mod 2 ^ 64 + ts) mod 2 ^ 64) || (ttl =? 0)) =
-              ((0 <? Z.to_N ttl)%N && (Z.to_N now <? (Z.to_N ttl + Z.to_N ts) mod 2 ^ 64)%N || (Z.to_N ttl =? 0)%N)).
-  { rewrite (Z.mod_small now) by lia. rewrite (Z.mod_small ttl) by lia.
-    assert (E2 : Z.of_N ((Z.to_N ttl + Z.to_N ts) mod 2 ^ 64) = (ttl + ts) mod 2 ^ 64).
-    { rewrite N2Z.inj_mod, N2Z.inj_add, !Z2N.id by lia. reflexivity. }
-    destruct (ttl =? 0) eqn:E0; destruct (Z.to_N ttl =? 0)%N eqn:E0'; try lia;
-    destruct (0 <? ttl) eqn:E1; destruct (0 <? Z.to_N ttl)%N eqn:E1'; try lia;
-    destruct (now <? (ttl + ts) mod 2 ^ 64) eqn:E3;
-    destruct (Z.to_N now <? (Z.to_N ttl + Z.to_N ts) mod 2 ^ 64)%N eqn:E3'; try reflexivity; exfalso; lia. }
-  rewrite E.
-  match goal with |- (if ?c then _ else _) = _ => destruct c end; reflexivity.
+  rewrite ?(Z.mod_small now) by lia. rewrite ?(Z.mod_small ttl) by lia.
+  (* the deadline, on both sides (an opaque value for [lia]) *)
+  assert (E2 : Z.of_N ((Z.to_N ttl + Z.to_N ts) mod 2 ^ 64) = (ttl + ts) mod 2 ^ 64).
+  { rewrite N2Z.inj_mod, N2Z.inj_add, !Z2N.id by lia. reflexivity. }
+  set (d := (ttl + ts) mod 2 ^ 64) in *.
+  set (dN := ((Z.to_N ttl + Z.to_N ts) mod 2 ^ 64)%N) in *.
+  clearbody d dN.
+  (* every atomic test, of the code and of the model *)
+  go_cases; reflexivity.
 Qed.
 
 Theorem go_isFilterEntry_eq now db e :
